@@ -53,3 +53,10 @@ ZERO_EXCLUDED_FIELDS = {
     'write_count': 'quantities are >= 1',
     'byte_count': 'derived from a quantity >= 1',
 }
+
+# Valid ranges of record fields ([APP] §6.14 / §6.15: file number 0x0001..0xFFFF, record number 0x0000..0x270F);
+# a decoder may drop a sub-request only for values outside them.  Used by C01 R3 (guards on decoded records).
+RECORD_FIELD_RANGES = {
+    'file_number': (0x0001, 0xFFFF),
+    'record_number': (0x0000, 0x270F),
+}
